@@ -125,6 +125,10 @@ func runC11(c c11Case) *vh.Outcome {
 	all := u16s(seq(1, c.N))
 	var fail *vh.Failure
 	var okData = map[int][]byte{}
+	// badAccepted: the altered share data of a "baddata" fault is still accepted by the signer (PS): the caller then gets a
+	// deadline like everybody else - without one, a fault-free loud-mode Sign with the library's local signer may wait for
+	// ever (known finding L39, C01), which is not C11's business
+	badAccepted := false
 
 	br := sim.Bubble(theT, func() {
 		net := sim.NewNet()
@@ -230,6 +234,13 @@ func runC11(c c11Case) *vh.Outcome {
 					bad = structurallyBadShare(c.Backend, good, c.Fault.Data-5)
 				}
 				node.Party.SetStoredData(bad)
+				if c.Backend == "ps" {
+					// does the library's own signer still accept the altered data? Then no local precondition fails, and what
+					// C11 says about a context without deadline does not apply
+					tp := &ps.TPS{Curve: math.Curves[1], Party: uint16(c.Fault.Caller), Logger: &sim.Logger{}, MessageLength: 1}
+					tp.Init(all, c.T, nil)
+					badAccepted = tp.SetShareData(bad) == nil
+				}
 			}
 		}
 
@@ -281,7 +292,7 @@ func runC11(c c11Case) *vh.Outcome {
 		ctxs := map[uint16]context.Context{}
 		cancels := map[uint16]context.CancelFunc{}
 		for _, id := range all {
-			if c.NoDeadline && c.Fault.Kind == "baddata" && int(id) == c.Fault.Caller {
+			if c.NoDeadline && c.Fault.Kind == "baddata" && int(id) == c.Fault.Caller && !badAccepted {
 				ctxs[id], cancels[id] = context.WithCancel(root)
 			} else {
 				ctxs[id], cancels[id] = context.WithTimeout(root, c11Deadline)
@@ -479,6 +490,9 @@ func runC11(c c11Case) *vh.Outcome {
 	}
 	o.Key = fmt.Sprintf("%d/%d/%v/%s/%s/%+v/%v/%v", c.N, c.T, c.Silent, c.Backend, c.Op, c.Fault, c.NoDeadline, c.Sched)
 	o.NonTrivial = info.FaultHit || c.Fault.Kind == "baddata"
+	if badAccepted && c.NoDeadline {
+		o.Classes = append(o.Classes, "no-deadline-dropped(altered-data-still-accepted,L39)")
+	}
 	o.Classes = append(o.Classes, "fault="+c.Fault.Kind, "backend="+c.Backend, "op="+c.Op, fmt.Sprintf("silent=%v", c.Silent))
 	nerr := 0
 	for _, r := range info.Results {
